@@ -53,8 +53,10 @@ def _sig_params(cls):
 def _sig_spec(draw):
     cls = draw(st.sampled_from(["csr", "element", "fieldport", "wb", "wb", "source", "pin"]))
     a = draw(_sig_params(cls))
-    mode = draw(st.sampled_from(["same", "fresh", "perturb"]))
-    if mode == "same" or not a:
+    mode = draw(st.sampled_from(["same", "fresh", "perturb", "sign"]))
+    if mode == "sign" and cls == "fieldport" and a[0][0] in ("u", "s") and a[0][1] >= 1:
+        b = [["s" if a[0][0] == "u" else "u", a[0][1]], a[1], a[2]]     # same width and access, other signedness
+    elif mode == "same" or mode == "sign" or not a:
         b = list(a)
         if a and isinstance(a[-1], bool):
             b[-1] = draw(st.booleans())    # same parameters, possibly other spelling (str vs enum)
